@@ -1,9 +1,14 @@
 (* C19 — output files are complete, correctly attributed and never clobbered.
-   Only statements here; proofs live in Proofs/OutputsDir.v and Proofs/OutputsFiles.v.
+   Only statements here; proofs live in Proofs/OutputsDir.v, OutputsFiles.v, OutputsSeq.v and OutputsHist.v.
    Gen_C19 (src_mkdir_exclusive, src_tables) is regenerated on every run from
-   pyxel/outputs/outputs.py, pyxel/outputs/utils.py and the save_to_files call of exposure.py. *)
+   pyxel/outputs/outputs.py, pyxel/outputs/utils.py, the save_to_files call of exposure.py, the
+   run_pipeline call of Observation._run_single_pipeline and the apply_ufunc kwargs of
+   run_pipelines_with_dask.  The theorems below hold for what the code says NOW: each one discharges
+   a boolean condition on the regenerated tables by vm_compute and fails if the code stops meeting it.
+   (Round 2: C19-F17a/b/c/d repaired — the former _refuted/_partial statements are proved in full.) *)
 From Coq Require Import List Bool Arith ZArith String Lia.
-From PyxelV Require Import Model.Outputs Proofs.OutputsDir Proofs.OutputsFiles.
+From PyxelV Require Import Model.Outputs Model.OutputsHist Proofs.OutputsDir Proofs.OutputsFiles Proofs.OutputsSeq
+  Proofs.OutputsHist Proofs.OutputsAuto.
 From PyxelGen Require Import Gen_C19.
 Import ListNotations.
 Open Scope string_scope.
@@ -81,107 +86,86 @@ Proof. vm_compute. auto. Qed.
 
 (* ---------------------------------------------------------------- never clobbered *)
 
-(* FULL statement: whatever a writer of outputs/utils.py is asked to write, every file that exists
-   keeps its content. *)
-Definition C19_never_clobbers_full : Prop :=
+(* whatever a writer of outputs/utils.py is asked to write, every file that exists keeps its content
+   (all seven to_* and the three write_to_* writers, by the regenerated behaviour table) *)
+Theorem C19_never_clobbers :
   forall (w : string) (b : on_exists), In (w, b) (t_writers src_tables) -> never_clobbers b.
+Proof. apply all_safe_sound. vm_compute. reflexivity. Qed.
+Print Assumptions C19_never_clobbers.
 
-(* refuted on the unchanged tree: to_txt (also to_csv, to_hdf) has no existence test *)
-Theorem C19_never_clobbers_refuted : ~ C19_never_clobbers_full.
-Proof. apply (not_all_safe_refutes _ "to_txt"). vm_compute. tauto. Qed.
-Print Assumptions C19_never_clobbers_refuted.
+Example C19_ex_writers :
+  In ("to_txt", Raise) (t_writers src_tables) /\ In ("write_to_npy", Raise) (t_writers src_tables) /\
+  List.length (t_writers src_tables) = 10.
+Proof. vm_compute. tauto. Qed.
 
-(* the strongest true restriction: every other writer, by the regenerated table *)
-Theorem C19_never_clobbers_partial :
-  forall w, In w ["to_fits"; "to_npy"; "to_png"; "to_jpg"; "write_to_fits"; "write_to_npy"; "write_to_jpg"] ->
-  never_clobbers (beh src_tables w).
-Proof.
-  intros w H. apply never_clobbers_iff. simpl in H.
-  repeat (destruct H as [<-|H]; [vm_compute; discriminate|]). contradiction.
-Qed.
-Print Assumptions C19_never_clobbers_partial.
-
-(* and therefore the exposure flow and the parallel-observation flow (all buckets, formats, runs,
-   pre-existing files, including the runs that end in an exception) leave every existing file as it was *)
+(* and therefore the exposure flow, the parallel-observation flow and the sequential-observation flow
+   (all buckets, formats, runs, pre-existing files, including the runs that end in an exception)
+   leave every existing file as it was *)
 Theorem C19_flows_never_clobber :
-  (forall req fs fs' rep e, flow_exposure src_tables req fs = (fs', rep, e) ->
+  (forall ep req fs fs' rep e, flow_exposure src_tables ep req fs = (fs', rep, e) ->
      forall f x, lookup f fs = Some x -> lookup f fs' = Some x) /\
-  (forall req n fs fs' rep e, flow_dask src_tables req n fs = (fs', rep, e) ->
+  (forall ep req n fs fs' rep e, flow_dask src_tables ep req n fs = (fs', rep, e) ->
+     forall f x, lookup f fs = Some x -> lookup f fs' = Some x) /\
+  (forall ep req n fs fs' rep e, flow_seq src_tables ep req n fs = (fs', rep, e) ->
      forall f x, lookup f fs = Some x -> lookup f fs' = Some x).
 Proof.
-  assert (S : safe_new src_tables = true) by (vm_compute; reflexivity).
-  split.
-  - intros req fs fs' rep e H. exact (save_new_preserves _ S _ _ _ _ _ _ _ _ H).
-  - intros req n fs fs' rep e H. apply flow_dask_cases in H. destruct H as [(-> & _ & _)|H]; [auto|].
-    exact (flow_dask_from_preserves _ S _ _ _ _ _ _ _ _ H).
+  assert (S : clobber_ok src_tables = true) by (vm_compute; reflexivity).
+  split; [|split].
+  - intros ep req fs fs' rep e H. exact (flow_preserves_all _ MExposure S ep req 0 fs fs' rep e H).
+  - intros ep req n fs fs' rep e H. exact (flow_preserves_all _ MDask S ep req n fs fs' rep e H).
+  - intros ep req n fs fs' rep e H. exact (flow_preserves_all _ MSeq S ep req n fs fs' rep e H).
 Qed.
 Print Assumptions C19_flows_never_clobber.
 
 (* ---------------------------------------------------------------- attribution *)
 
-(* FULL statement: every reported name holds the content of the run it is attributed to *)
-Definition C19_reported_own_run_full : Prop :=
-  forall req fs fs' rep e, flow_exposure src_tables req fs = (fs', rep, e) -> attributed rep fs'.
-
-(* refuted on the unchanged tree: the new writers skip an existing file silently, and
-   save_to_files reports the name all the same *)
-Theorem C19_reported_own_run_refuted : ~ C19_reported_own_run_full.
+(* every reported name holds the content of the run it is attributed to — in ANY directory, whatever
+   was there before (a colliding name is refused with FileExistsError, never reported), for every
+   request, duplicates included, every number of runs, all three flows, also when the flow ends in an
+   exception *)
+Theorem C19_reported_own_run :
+  (forall ep req fs fs' rep e, flow_exposure src_tables ep req fs = (fs', rep, e) -> attributed ep rep fs') /\
+  (forall ep req n fs fs' rep e, flow_dask src_tables ep req n fs = (fs', rep, e) -> attributed ep rep fs') /\
+  (forall ep req n fs fs' rep e, flow_seq src_tables ep req n fs = (fs', rep, e) -> attributed ep rep fs').
 Proof.
-  intro H.
-  specialize (H [[(Image, [Npy])]] [("detector_image.npy", 99%Z)] _ _ _ eq_refl 0 Image Npy "detector_image.npy").
-  vm_compute in H. assert (X : Some 99%Z = Some 20%Z) by (apply H; auto). discriminate X.
+  assert (S : attr_ok src_tables = true) by (vm_compute; reflexivity).
+  split; [|split].
+  - intros ep req fs fs' rep e H. exact (flow_attributed_all _ MExposure S ep req 0 fs fs' rep e I H).
+  - intros ep req n fs fs' rep e H. exact (flow_attributed_all _ MDask S ep req n fs fs' rep e I H).
+  - intros ep req n fs fs' rep e H. exact (flow_attributed_all _ MSeq S ep req n fs fs' rep e I H).
 Qed.
-Print Assumptions C19_reported_own_run_refuted.
+Print Assumptions C19_reported_own_run.
 
-(* the strongest true restriction: in a directory without colliding names (in particular the fresh
-   directory of C19_dir_fresh) every reported file holds its own run's bucket — for every request,
-   duplicates included, every number of runs, whatever the writers do on existing files *)
-Theorem C19_reported_own_run_partial :
-  (forall req fs fs' rep e, fresh fs -> flow_exposure src_tables req fs = (fs', rep, e) -> attributed rep fs') /\
-  (forall req n fs fs' rep e, fresh fs -> flow_dask src_tables req n fs = (fs', rep, e) -> attributed rep fs').
-Proof.
-  split.
-  - intros req fs fs' rep e F H.
-    apply (save_new_attributed src_tables (items req) None fs [] fs' rep e); auto.
-    + now apply fresh_good.
-    + intros r b f n [].
-  - intros req n fs fs' rep e F H. apply flow_dask_cases in H.
-    destruct H as [(_ & -> & _)|H]; [intros r b f m []|].
-    apply (flow_dask_from_attributed src_tables req n 0 fs [] fs' rep e); auto.
-    + now apply fresh_good.
-    + intros r b f m [].
-Qed.
-Print Assumptions C19_reported_own_run_partial.
-
-Example C19_ex_fresh : fresh [] /\ fresh [("pyxel.log", 0%Z)].
-Proof. split; intros b s f; [reflexivity|]. destruct b, s, f; reflexivity. Qed.
+(* non-vacuity, and the former counterexample: a colliding name in the directory is refused *)
+Example C19_ex_collision :
+  flow_exposure src_tables 0 [[(Image, [Npy])]] [("detector_image.npy", 99%Z)] =
+  ([("detector_image.npy", 99%Z)], [], Some EFileExists).
+Proof. vm_compute. reflexivity. Qed.
 
 (* ---------------------------------------------------------------- completeness *)
 
-(* exposure and parallel observation: when the flow returns normally, the reported files are exactly
-   one per requested (bucket, format, run), under the name of that combination, and nothing else *)
+(* when a flow returns normally, the reported files are exactly one per requested (bucket, format, run),
+   under the name of that combination, and nothing else — exposure, parallel and sequential observation *)
 Theorem C19_complete :
-  (forall req fs fs' rep, flow_exposure src_tables req fs = (fs', rep, None) ->
+  (forall ep req fs fs' rep, flow_exposure src_tables ep req fs = (fs', rep, None) ->
      forall r b f n, In (r, b, f, n) rep <-> r = 0 /\ In (b, f) (items req) /\ n = render_new b None f) /\
-  (forall req nruns fs fs' rep, flow_dask src_tables req nruns fs = (fs', rep, None) ->
+  (forall ep req nruns fs fs' rep, flow_dask src_tables ep req nruns fs = (fs', rep, None) ->
      forall r b f n, In (r, b, f, n) rep <->
-       r < nruns /\ In (b, f) (items req) /\ n = render_new b (Some r) f).
+       r < nruns /\ In (b, f) (items req) /\ n = render_new b (Some r) f) /\
+  (forall ep req nruns fs fs' rep, flow_seq src_tables ep req nruns fs = (fs', rep, None) ->
+     forall r b f n, In (r, b, f, n) rep <->
+       r < nruns /\ In (b, f) (items req) /\ n = render_old b r (old_ext_spec f)).
 Proof.
-  split.
-  - intros req fs fs' rep H r b f n. apply save_new_complete in H. subst rep. simpl.
-    apply in_new_entries.
-  - intros req nruns fs fs' rep H r b f n. apply flow_dask_cases in H.
-    destruct H as [(_ & _ & X)|H]; [congruence|].
-    apply flow_dask_from_complete in H. subst rep. simpl.
-    rewrite in_flat_map. split.
-    + intros [x [Hx Hin]]. apply in_seq in Hx. apply in_new_entries in Hin.
-      destruct Hin as (-> & Hin & ->). repeat split; auto; lia.
-    + intros (Hr & Hin & ->). exists r. split; [apply in_seq; lia | now apply in_new_entries].
+  split; [|split].
+  - intros ep req fs fs' rep H. exact (flow_exposure_complete _ _ _ _ _ _ H).
+  - intros ep req nruns fs fs' rep H. exact (flow_dask_complete _ _ _ _ _ _ _ H).
+  - intros ep req nruns fs fs' rep H.
+    exact (flow_seq_complete src_tables eq_refl eq_refl eq_refl _ _ _ _ _ _ H).
 Qed.
 Print Assumptions C19_complete.
 
 Example C19_ex_complete :
-  flow_dask src_tables [[(Image, [Fits; Npy]); (Pixel, [Npy])]] 2 [] =
+  flow_dask src_tables 0 [[(Image, [Fits; Npy]); (Pixel, [Npy])]] 2 [] =
   ([("detector_image_0.fits", 20%Z); ("detector_image_0.npy", 20%Z); ("detector_pixel_0.npy", 18%Z);
     ("detector_image_1.fits", 36%Z); ("detector_image_1.npy", 36%Z); ("detector_pixel_1.npy", 34%Z)],
    [(0, Image, Fits, "detector_image_0.fits"); (0, Image, Npy, "detector_image_0.npy");
@@ -189,17 +173,138 @@ Example C19_ex_complete :
     (1, Image, Npy, "detector_image_1.npy"); (1, Pixel, Npy, "detector_pixel_1.npy")], None).
 Proof. vm_compute. reflexivity. Qed.
 
-(* FULL statement for the sequential observation *)
-Definition C19_complete_seq_full : Prop :=
-  forall req nruns fs fs' rep, flow_seq src_tables req nruns fs = (fs', rep, None) ->
-    forall r b f, r < nruns -> In (b, f) (items req) -> exists n, In (r, b, f, n) rep.
+(* the former counterexample of the sequential observation: the second entry of a dict, and a bucket
+   named by two dicts, are saved and reported for every run; no stray un-numbered file *)
+Example C19_ex_complete_seq :
+  flow_seq src_tables 0 [[(Image, [Fits]); (Pixel, [Npy])]; [(Image, [Npy])]] 2 [] =
+  ([("detector_image_array_1.fits", 20%Z); ("detector_pixel_array_1.npy", 18%Z); ("detector_image_array_1.npy", 20%Z);
+    ("detector_image_array_2.fits", 36%Z); ("detector_pixel_array_2.npy", 34%Z); ("detector_image_array_2.npy", 36%Z)],
+   [(0, Pixel, Npy, "detector_pixel_array_1.npy"); (0, Image, Fits, "detector_image_array_1.fits");
+    (0, Image, Npy, "detector_image_array_1.npy"); (1, Pixel, Npy, "detector_pixel_array_2.npy");
+    (1, Image, Fits, "detector_image_array_2.fits"); (1, Image, Npy, "detector_image_array_2.npy")], None).
+Proof. vm_compute. reflexivity. Qed.
 
-(* refuted on the unchanged tree: Outputs.save_to_file uses only the first entry of each dict *)
-Theorem C19_complete_seq_refuted : ~ C19_complete_seq_full.
+(* ---------------------------------------------------------------- histories on ONE configuration object
+   run_mode is called again and again on one running-mode / Outputs object; between the calls the
+   request (in place or by assignment), the folder and the prefix are edited; a dask observation may be
+   started (Start) and computed later (Compute), after other simulations have been started and the
+   outputs edited.  [sims] lists, independently of the save machinery, what each call was asked for: the
+   request, folder and prefix in force when it STARTED. *)
+
+(* For EVERY sequence of Edit | Run | Start | Compute, every mode, every world: each simulation is exactly
+   the standalone save flow on the request in force when it started, in a directory that did not exist,
+   that it created itself (r_at = r_dir) and that is a candidate of the folder/prefix of that time; the
+   directories are pairwise distinct; every directory that existed keeps its files; what a simulation
+   left is still there at the end; every non-lazy run_mode call is recorded.
+   (Induction over the operation sequence with an invariant over the pending lazy results,
+   Proofs/OutputsHist.v hist_main.) *)
+Theorem C19_history_standalone : forall m ts ops c w wf recs,
+  run_hist m src_tables src_mkdir_exclusive ts ops (init_state c) w 0 = (wf, recs) ->
+  (forall r, In r recs -> exists s, In s (sims ts ops c 0) /\ rec_of_sim m src_tables r s) /\
+  NoDup (map r_dir recs) /\
+  (forall r, In r recs -> ~ In (r_dir r) (wdirs w)) /\
+  (forall d fs, wget d w = Some fs -> wget d wf = Some fs) /\
+  (forall r, In r recs -> wget (r_dir r) wf = Some (r_files r)) /\
+  (forall s, In s (sims ts ops c 0) -> sm_lazy s = false -> exists r, In r recs /\ r_ep r = sm_ep s).
 Proof.
-  intro H.
-  specialize (H [[(Image, [Fits]); (Pixel, [Npy])]] 1 [] _ _ eq_refl 0 Pixel Npy).
-  destruct H as [n Hn]; [auto | vm_compute; auto |].
-  vm_compute in Hn. destruct Hn as [E|[]]. discriminate E.
+  intros m ts ops c w wf recs H.
+  exact (hist_sound m src_tables ts ops c w wf recs (or_introl eq_refl) H).
 Qed.
-Print Assumptions C19_complete_seq_refuted.
+Print Assumptions C19_history_standalone.
+
+(* a lazily computed observation writes into the directory IT created, whatever was started or edited
+   in between (the former C19_history_lazy_full) *)
+Theorem C19_history_lazy : forall ts ops c w wf recs,
+  run_hist MDask src_tables src_mkdir_exclusive ts ops (init_state c) w 0 = (wf, recs) ->
+  forall r, In r recs -> r_at r = r_dir r.
+Proof.
+  intros ts ops c w wf recs H r Hr.
+  destruct (hist_lift MDask src_tables ts ops c w wf recs (or_introl eq_refl) H r Hr) as (s & _ & _ & E & _).
+  exact E.
+Qed.
+Print Assumptions C19_history_lazy.
+
+(* completeness per simulation, judged against the request AT THAT TIME, all modes: the reported entries
+   of every simulation that returned normally are exactly one per (bucket, format, run) of the request
+   in force when it started, under that combination's name — nothing of an earlier or later request *)
+Theorem C19_history_complete : forall m ts ops c w wf recs,
+  run_hist m src_tables src_mkdir_exclusive ts ops (init_state c) w 0 = (wf, recs) ->
+  forall r, In r recs -> r_err r = None ->
+  exists s, In s (sims ts ops c 0) /\ sm_ep s = r_ep r /\
+    forall x b f n, In (x, b, f, n) (r_rep r) <->
+      x < nruns_of (eff_mode m s) (sm_n s) /\ In (b, f) (items (sm_req s)) /\
+      n = spec_name (eff_mode m s) x b f.
+Proof.
+  intros m ts ops c w wf recs H.
+  exact (hist_complete m src_tables ts ops c w wf recs eq_refl (or_introl eq_refl) H).
+Qed.
+Print Assumptions C19_history_complete.
+
+(* never clobbered, over the whole history, all modes: every directory that existed before keeps its
+   files, and whatever was in a simulation's new directory before its first write is still there,
+   unchanged, at the END of the history — later simulations included *)
+Theorem C19_history_never_clobbers : forall m ts ops c w wf recs,
+  run_hist m src_tables src_mkdir_exclusive ts ops (init_state c) w 0 = (wf, recs) ->
+  (forall d fs, wget d w = Some fs -> wget d wf = Some fs) /\
+  (forall r, In r recs -> exists s fs, In s (sims ts ops c 0) /\ sm_ep s = r_ep r /\
+     wget (r_dir r) wf = Some fs /\ forall f x, lookup f (sm_pre s) = Some x -> lookup f fs = Some x).
+Proof.
+  intros m ts ops c w wf recs H.
+  exact (hist_never_clobbers m src_tables ts ops c w wf recs eq_refl (or_introl eq_refl) H).
+Qed.
+Print Assumptions C19_history_never_clobbers.
+
+(* attribution at the END of the history, all modes, whatever was put into the new directories: every
+   file a simulation reported still holds the bucket of THAT run of THAT simulation *)
+Theorem C19_history_attributed : forall m ts ops c w wf recs,
+  run_hist m src_tables src_mkdir_exclusive ts ops (init_state c) w 0 = (wf, recs) ->
+  forall r, In r recs -> exists fs, wget (r_dir r) wf = Some fs /\ attributed (r_ep r) (r_rep r) fs.
+Proof.
+  intros m ts ops c w wf recs H.
+  exact (hist_attributed m src_tables ts ops c w wf recs eq_refl (or_introl eq_refl) H).
+Qed.
+Print Assumptions C19_history_attributed.
+
+(* non-vacuity: the request grows in place between two exposures on one object; the second run is judged
+   against the grown request (and reports exactly its three files), the first against the original one *)
+Example C19_ex_history :
+  let c := {| c_req := [[(Image, [Fits])]]; c_folder := "out"; c_prefix := "" |} in
+  let ops := [Run 1 []; Edit (EAppendDict [(Pixel, [Npy])]); Edit (EAppendFmt 0 Image Npy); Run 1 []] in
+  map sm_req (sims "T" ops c 0) = [[[(Image, [Fits])]]; [[(Image, [Fits; Npy])]; [(Pixel, [Npy])]]] /\
+  let '(wf, recs) := run_hist MExposure src_tables src_mkdir_exclusive "T" ops (init_state c) [("out/run_T", [("keep", 7%Z)])] 0 in
+  map r_dir recs = ["out/run_T_1"; "out/run_T_2"] /\
+  map (fun r => List.length (r_rep r)) recs = [1; 3] /\
+  wget "out/run_T" wf = Some [("keep", 7%Z)].
+Proof. vm_compute. repeat split; reflexivity. Qed.
+
+(* non-vacuity, and the former counterexample: two observations started before either is computed, the
+   request and the folder edited in between — each writes its own request into its own directory *)
+Example C19_ex_history_lazy :
+  let c := {| c_req := [[(Image, [Npy])]]; c_folder := "out"; c_prefix := "" |} in
+  let ops := [Start 1 []; Edit (EAppendFmt 0 Image Fits); Edit (ESetFolder "new"); Start 1 []; Compute 1; Compute 0] in
+  let '(wf, recs) := run_hist MDask src_tables src_mkdir_exclusive "T" ops (init_state c) [] 0 in
+  map (fun r => (r_ep r, r_dir r, r_at r, List.length (r_rep r))) recs =
+    [(1, "new/run_T", "new/run_T", 2); (0, "out/run_T", "out/run_T", 1)] /\
+  wget "out/run_T" wf = Some [("detector_image_0.npy", 20%Z)].
+Proof. vm_compute. repeat split; reflexivity. Qed.
+
+(* ---------------------------------------------------------------- automatic numbering
+   apply_run_number(run_number=None): the glob finds the matching names, the new file gets the largest
+   trailing number + the step of the source (regenerated: src_auto).  For EVERY set of matching names:
+   the new name is not one of them — so the writer's own existence test never fires and nothing that
+   exists is replaced — and no existing name carries a number above it. *)
+Theorem C19_auto_number_fresh : forall mids,
+  ~ In (auto_mid src_auto mids) mids /\
+  (forall m, In m mids -> get_number m < next_number src_auto mids).
+Proof.
+  intro mids. split.
+  - apply auto_fresh. vm_compute. lia.
+  - intros m Hin. destruct (auto_above_all src_auto mids m Hin) as [H|H]; [|exact H|vm_compute in H; discriminate H].
+    intros ->. contradiction.
+Qed.
+Print Assumptions C19_auto_number_fresh.
+
+Example C19_ex_auto :
+  auto_mid src_auto ["9"; "10"; "x"; "007"] = "11" /\ auto_mid src_auto [] = "1" /\ get_number "run12" = 12 /\
+  get_number "" = 0.
+Proof. vm_compute. auto. Qed.
